@@ -6,6 +6,7 @@ from __future__ import annotations
 
 import math
 import os
+import warnings
 import random
 import re
 import shutil
@@ -79,13 +80,15 @@ def gen_assembly(rng: random.Random, max_blocks: int, jitter: bool = True) -> di
             break
     rng.shuffle(cells)
     jit = {}
-    for i in range(nx + 1):
-        for j in range(ny + 1):
-            for k in range(nz + 1):
-                if jitter:
-                    jit[(i, j, k)] = [rng.randint(-12, 12) / 64 for _ in range(3)]
-                else:
-                    jit[(i, j, k)] = [0.0, 0.0, 0.0]
+    # jitter modes: every lattice vertex / only a few vertices (so that single edges of a block differ) / none
+    jmode = rng.choice(["all", "all", "few", "few", "none"]) if jitter else "none"
+    verts = [(i, j, k) for i in range(nx + 1) for j in range(ny + 1) for k in range(nz + 1)]
+    moved = set(verts) if jmode == "all" else set(rng.sample(verts, rng.randint(1, 2))) if jmode == "few" else set()
+    for v in verts:
+        if v in moved:
+            jit[v] = [rng.randint(-12, 12) / 64 for _ in range(3)]
+        else:
+            jit[v] = [0.0, 0.0, 0.0]
     scale = [rng.choice([0.5, 1.0, 2.0, 3.0]) for _ in range(3)]
     blocks = []
     for c in cells:
@@ -233,10 +236,31 @@ def gen_sandwich(rng: random.Random) -> dict:
     return {"kind": "sandwich", "asm": asm, "chops": chops}
 
 
+def gen_full(rng: random.Random, max_blocks: int) -> dict:
+    """Every block chops every axis itself (nothing is left to propagation): per family one chop, applied to each
+    member in the same geometric direction; with some probability one member deviates in its count."""
+    asm = gen_assembly(rng, min(max_blocks, 6))
+    fam_of, members = families(asm)
+    chops = []
+    conflict_fam = rng.choice(list(members)) if rng.random() < 0.5 else None
+    for f, mem in members.items():
+        calls = gen_chop(rng, ["count", "count_c2c", "count_total"])
+        odd = rng.choice(mem) if f == conflict_fam and len(mem) > 1 else None
+        for b, a in mem:
+            _, sgn = axis_direction(asm["blocks"][b]["rot"], a)
+            c = calls if sgn == 1 else [invert_call(k) for k in reversed(calls)]
+            if (b, a) == odd:
+                c = [dict(k, count=k["count"] + 3) for k in c]
+            chops.append({"block": b, "axis": a, "calls": [dict(k) for k in c]})
+    return {"kind": "full", "asm": asm, "chops": chops}
+
+
 def gen_case(rng: random.Random, max_blocks: int, mode: str) -> dict:
     """mode: well (one chopped axis per family) | under | conflict | double (two chopped axes, same count)."""
     if mode == "sandwich":
         return gen_sandwich(rng)
+    if mode == "full":
+        return gen_full(rng, max_blocks)
     asm = gen_assembly(rng, max_blocks)
     fam_of, members = families(asm)
     chops: List[dict] = []  # {"block","axis","calls":[kwargs…]}
@@ -397,6 +421,7 @@ def parse_hex_lines(text: str) -> List[dict]:
 
 def run_write(case: dict, order=None, rots=None, timeout: float = 20.0) -> dict:
     """Writes the mesh with the public API; returns outcome + file text + internals read afterwards."""
+    warnings.simplefilter("ignore")
     mesh, ops = build_mesh(case, order, rots)
     tmp = tempfile.mkdtemp(prefix="cbv_prop_")
     path = os.path.join(tmp, "blockMeshDict")
@@ -415,8 +440,31 @@ def run_write(case: dict, order=None, rots=None, timeout: float = 20.0) -> dict:
         res["file_written"] = os.path.exists(path)
     finally:
         signal.setitimer(signal.ITIMER_REAL, 0)
-        signal.signal(signal.SIGALRM, old)
-        shutil.rmtree(tmp, ignore_errors=True)
+    # what the implementation holds after the first write (schedule, lengths, specifications)
+    if res["outcome"] != "hang":
+        try:
+            res["internals"] = read_internals(mesh)
+        except Exception as e:  # assembly itself failed
+            res["internals_error"] = repr(e)
+    # the same mesh object written once more (a retry after an error, or a second export)
+    second: Dict[str, Any] = {}
+    if res["outcome"] != "hang":
+        path2 = os.path.join(tmp, "blockMeshDict.2")
+        signal.setitimer(signal.ITIMER_REAL, timeout)
+        try:
+            mesh.write(path2)
+            second["outcome"] = "ok"
+            second["text"] = open(path2).read()
+        except Hang:
+            second["outcome"] = "hang"
+        except Exception as e:
+            second["outcome"] = type(e).__name__
+            second["message"] = str(e)[:200]
+        finally:
+            signal.setitimer(signal.ITIMER_REAL, 0)
+    signal.signal(signal.SIGALRM, old)
+    shutil.rmtree(tmp, ignore_errors=True)
+    res["second"] = second
     res["order"] = [b for b, _, _ in ops]
     return res, mesh
 
@@ -552,11 +600,10 @@ def prepare(case: dict, order=None, rots=None):
     obs: Dict[str, Any] = {"outcome": res["outcome"], "message": res.get("message"), "file_written": res.get("file_written")}
     if res["outcome"] == "hang":
         return obs
-    try:
-        internals = read_internals(mesh)
-    except Exception as e:  # assembly itself failed
-        obs["internals_error"] = repr(e)
+    if "internals" not in res:
+        obs["internals_error"] = res.get("internals_error")
         return obs
+    internals = res["internals"]
     internals["pos_of_block"] = pos_of_block
     # axis / calls as actually applied
     applied = []
@@ -572,8 +619,15 @@ def prepare(case: dict, order=None, rots=None):
     obs["internals"] = {k: internals[k] for k in ("nbrs", "coinc", "verts", "lens", "specs", "counts", "simple")}
     obs["chops"] = chops
     obs["chop_error"] = err
-    # a preserved size that does not fit on some edge of the family cannot be realised (the library raises)
+    # a preserved size that does not fit on an edge that evaluates the chop cannot be realised (the library raises).
+    # Which edges evaluate a chop: those of its own axis, and — when it is the only chopped axis of its family —
+    # every edge of the family (copied wires have the length of the wire they copy from).  With several chopped
+    # axes in one family, which chop reaches an un-chopped axis depends on the schedule: either outcome is accepted.
     fam_of, members = families(asm)
+    n_chopped: Dict[int, int] = {}
+    for ch in case["chops"]:
+        f = fam_of[(ch["block"], ch["axis"])]
+        n_chopped[f] = n_chopped.get(f, 0) + 1
     unreal = None
     extreme = None
     for c in chops:
@@ -581,26 +635,37 @@ def prepare(case: dict, order=None, rots=None):
             continue
         b_case = res["order"][c["x"] // 3]
         ax_case = next(ch["axis"] for ch, ap in zip(case["chops"], applied) if ch["block"] == b_case and ap["axis_now"] == c["x"] % 3)
-        for (b2, a2) in members[fam_of[(b_case, ax_case)]]:
+        fam = fam_of[(b_case, ax_case)]
+        for (b2, a2) in members[fam]:
+            own = (b2, a2) == (b_case, ax_case)
             if rots is not None:
                 a2 = remap_axis(asm["blocks"][b2]["rot"], rots[b2], a2)
             x2 = 3 * pos_of_block[b2] + a2
             for k in range(4):
                 L = internals["lens"][4 * x2 + k] * c["ratio"]
+                msg = f"chop {c} on wire {4 * x2 + k} of length {L}"
                 if c["value"] >= L * (1 - 1e-6):
-                    unreal = f"chop {c} does not fit on wire {4 * x2 + k} of length {L}"
+                    if own or n_chopped[fam] == 1:
+                        unreal = msg + ": does not fit"
+                    else:
+                        extreme = msg + ": does not fit if it gets there"
                 elif c["count"] >= 2:
                     r = solve_r_for_start(L, c["count"], c["value"])
                     # the library brackets the total expansion within [TOL, 1/TOL]; one decade of margin
                     if not -6 < (c["count"] - 1) * math.log10(r) < 6:
-                        extreme = f"chop {c} on wire {4 * x2 + k} of length {L} needs cell-to-cell ratio {r:.3g}"
+                        extreme = msg + f": needs cell-to-cell ratio {r:.3g}"
     obs["unrealisable"] = unreal
-    # a preserved size that fits only with an extreme cell-to-cell ratio: the library may or may not find it
+    # sizes that fit only with an extreme ratio, or whose arrival depends on the schedule: either outcome is accepted
     obs["extreme"] = extreme if unreal is None else None
     if res["outcome"] == "ok":
         obs["hex"] = parse_hex_lines(res["text"])
         obs["text_sha"] = __import__("hashlib").sha1(res["text"].encode()).hexdigest()
     obs["order"] = res["order"]
+    sec = res.get("second", {})
+    obs["second"] = {"outcome": sec.get("outcome"), "message": sec.get("message")}
+    if sec.get("outcome") == "ok":
+        obs["second"]["hex"] = parse_hex_lines(sec["text"])
+        obs["second"]["same_text"] = sec["text"] == res.get("text")
     return obs
 
 
@@ -627,7 +692,9 @@ def parse_model(ans: str):
 ERRMAP = {"UndefinedGradingsError": "undefined", "InconsistentGradingsError": "inconsistent", "ok": "ok"}
 
 
-def compare_with_model(obs: dict, ans: str, rel: float = 1e-6) -> Optional[str]:
+def compare_with_model(obs: dict, ans: str, rel: float = 1e-6, level: str = "full") -> Optional[str]:
+    """level 'counts': outcome class, written counts and every wire's section counts (what C01/C02 rest on);
+    level 'full': also length ratios, expansions and the simple/edge flags (C04)."""
     if obs["outcome"] == "hang":
         return "implementation hangs (no model outcome is a hang)"
     mo = parse_model(ans)
@@ -639,6 +706,14 @@ def compare_with_model(obs: dict, ans: str, rel: float = 1e-6) -> Optional[str]:
     it = obs["internals"]
     if mo["counts"] != it["counts"]:
         return f"counts: implementation {it['counts']}, model {mo['counts']}"
+    if level == "counts":
+        for w, (a, b) in enumerate(zip(it["specs"], mo["specs"])):
+            if [int(s[1]) for s in a] != [int(s[1]) for s in b]:
+                return f"wire {w} section counts: implementation {a}, model {b}"
+        for b, hx in enumerate(obs["hex"]):
+            if hx["counts"] != it["counts"][3 * b : 3 * b + 3]:
+                return f"hex line {b} counts {hx['counts']} differ from axis counts {it['counts'][3*b:3*b+3]}"
+        return None
     if mo["simple"] != it["simple"]:
         return f"is_simple: implementation {it['simple']}, model {mo['simple']}"
     for w, (a, b) in enumerate(zip(it["specs"], mo["specs"])):
